@@ -183,6 +183,8 @@ func zzBuildC10() []zzRevShape {
 		{{"a", "b", "USD/2"}, {"b", "c", "EUR"}},
 		{{"a", "b", "USD/2"}, {"b", "c", "USD/2"}, {"c", "a", "USD/2"}},
 		{{"world", "a", "USD/2"}, {"world", "b", "USD/2"}, {"world", "a", "USD/2"}},
+		{{"world", "a", "USD/2"}, {"a", "b", "USD/2"}, {"b", "c", "USD/2"}, {"c", "world", "USD/2"}},
+		{{"world", "a", "USD/2"}, {"a", "b", "USD/2"}, {"b", "c", "USD/2"}, {"c", "a", "USD/2"}, {"a", "world", "USD/2"}},
 	}
 	var out []zzRevShape
 	for _, p := range pats {
@@ -296,5 +298,30 @@ func ZZ_C10(shape int) {
 	_, err = w.commander.RevertTransaction(w.ctx, Parameters{}, orig.ID, sh.Force)
 	verifhook.Assert(err != nil, "C10 second revert of the same transaction is refused")
 	verifhook.Assert(len(st.Logs()) == nLogs+1, "C10 second revert appends nothing")
+	verifhook.Canary()
+}
+
+
+// ZZ_C10Reverse: TransactionData.Reverse on 0..7 postings with arbitrary amounts is the
+// list in reverse order with the ends of every posting swapped; the original is untouched.
+func ZZ_C10Reverse(shape int) {
+	n := shape
+	td := ledger.TransactionData{Postings: make(ledger.Postings, n), Metadata: metadata.Metadata{}}
+	for i := 0; i < n; i++ {
+		td.Postings[i] = ledger.Posting{Source: fmt.Sprintf("s%d", i), Destination: fmt.Sprintf("d%d", i), Asset: fmt.Sprintf("A%d", i), Amount: verifhook.BigInt(fmt.Sprintf("amt%d", i))}
+	}
+	rev := td.Reverse()
+	verifhook.Reach("reversed")
+	verifhook.Assert(len(rev.Postings) == n && len(td.Postings) == n, "C10 reversing changes the number of postings")
+	if len(rev.Postings) != n {
+		return
+	}
+	for i := 0; i < n; i++ {
+		o := td.Postings[i]
+		verifhook.Assert(o.Source == fmt.Sprintf("s%d", i) && o.Destination == fmt.Sprintf("d%d", i), "C10 reversing alters the original transaction")
+		r := rev.Postings[n-1-i]
+		verifhook.Assert(r.Source == o.Destination && r.Destination == o.Source && r.Asset == o.Asset, "C10 revert postings are the original's reversed with ends swapped")
+		verifhook.Assert(verifhook.Eq(r.Amount, o.Amount), "C10 revert amounts equal the original's")
+	}
 	verifhook.Canary()
 }
